@@ -205,7 +205,12 @@ fn new_line_state(
     let (prefix_char, prefix, in_merge_conflict) = match diff_type.clone() {
         Unified => (new_line.chars().next(), None, None),
         Combined(Number(n_parents), in_merge_conflict) => {
-            let prefix = &new_line[..min(n_parents, new_line.len())];
+            let prefix_len = min(n_parents, new_line.len());
+            if !new_line.is_char_boundary(prefix_len) {
+                // The would-be prefix ends inside a multi-byte character: not a hunk line.
+                return None;
+            }
+            let prefix = &new_line[..prefix_len];
             let prefix_char = match prefix.chars().find(|c| c == &'-' || c == &'+') {
                 Some(c) => Some(c),
                 None => match prefix.chars().find(|c| c != &' ') {
